@@ -18,7 +18,7 @@ type c06Scenario struct {
 	Bursts map[int]int   `json:"bursts,omitempty"` // op index -> number of writes done back to back on one P
 }
 
-var profLLStep = mux.Profile{Name: "ll-step", Variants: []int{mux.VariantLL}, LeadUnits: [2]int{120, 420}, MaxAudio: 1, ConstantLL: true, ParamRate: 1, SegCountMax: 9}
+var profLLStep = mux.Profile{Name: "ll-step", Variants: []int{mux.VariantLL}, LeadUnits: [2]int{120, 420}, MaxAudio: 1, ConstantLL: true, ParamRate: 1, SegCountMax: 14}
 
 func drawC06(t *rapid.T) c06Scenario {
 	sc := c06Scenario{Script: mux.DrawScript(t, profLLStep)}
@@ -26,7 +26,7 @@ func drawC06(t *rapid.T) c06Scenario {
 	nreq := rapid.IntRange(8, 30).Draw(t, "nreq")
 	for i := 0; i < nreq; i++ {
 		r := mux.ReqSpec{
-			AtOp:   rapid.IntRange(n/6, n-1).Draw(t, "at"),
+			AtOp:   rapid.IntRange(n/12, n-1).Draw(t, "at"),
 			Stream: rapid.IntRange(0, 3).Draw(t, "stream"),
 			PK:     rapid.IntRange(0, 50).Draw(t, "pk"),
 		}
@@ -40,7 +40,7 @@ func drawC06(t *rapid.T) c06Scenario {
 			r.Kind = "oldhint"
 		default:
 			r.Kind = "reload"
-			r.M = rapid.SampledFrom([]string{"expired", "first", "mid", "mid", "last", "last", "open", "open", "open", "next", "next", "far"}).Draw(t, "m")
+			r.M = rapid.SampledFrom([]string{"expired", "first", "mid", "mid", "last", "last", "open", "open", "open", "next", "next", "far", "none"}).Draw(t, "m")
 			r.P = rapid.SampledFrom([]string{"absent", "absent", "zero", "existing", "existing", "next", "next", "beyond", "past"}).Draw(t, "p")
 			r.Skip = rapid.SampledFrom([]string{"", "", "", "YES", "v2", "NO"}).Draw(t, "skip")
 			if rapid.IntRange(0, 4).Draw(t, "extra") == 0 {
